@@ -25,6 +25,11 @@ LIB = {
               'out': 'v', 'defaults': {'v': 1.0, 'w': 0.0, 'k': 4.0, 'c': 0.3}},
     'leak':  {'eqs': ["x' = -a*x + b*u"], 'state': ['x'], 'const': ['a', 'b'], 'in': 'u', 'out': 'x',
               'defaults': {'x': 0.5, 'a': 2.0, 'b': 1.0}},
+    # deliberately malformed operators (F-badop: an API call that legitimately fails in the middle of a history)
+    'bad_undecl': {'eqs': ["x' = -a*x + u + zz"], 'state': ['x'], 'const': ['a'], 'in': 'u', 'out': 'x',
+                   'defaults': {'x': 0.5, 'a': 2.0}},
+    'bad_2out': {'eqs': ["v' = w", "w' = -k*v + u"], 'state': ['v', 'w'], 'const': ['k'], 'in': 'u', 'out': 'v',
+                 'defaults': {'v': 1.0, 'w': 0.0, 'k': 4.0}, 'all_out': True},
 }
 
 
@@ -234,24 +239,34 @@ def _vardecl(lib, defaults):
     L = LIB[lib]
     out = {}
     for s in L['state']:
-        out[s] = f"output({defaults[s]})" if s == L['out'] else f"variable({defaults[s]})"
+        out[s] = f"output({defaults[s]})" if (s == L['out'] or L.get('all_out')) else f"variable({defaults[s]})"
     for c in L['const']:
         out[c] = float(defaults[c])
     out[L['in']] = 'input(0.0)'
     return out
 
 
-def build_python(spec):
+def build_python(spec, pool=None):
+    """pool: optional dict shared between several build calls; template objects are created once per key, so two
+    circuits built with the same pool share the same OperatorTemplate / NodeTemplate Python objects"""
     from pyrates import CircuitTemplate, NodeTemplate, OperatorTemplate
-    ops = {k: OperatorTemplate(name=o['name'], equations=list(LIB[o['lib']]['eqs']),
-                               variables=_vardecl(o['lib'], {**LIB[o['lib']]['defaults'], **o.get('defaults', {})}))
-           for k, o in spec['ops'].items()}
+    pool = pool if pool is not None else {}
+    ops = {}
+    for k, o in spec['ops'].items():
+        if ('op', k) not in pool:
+            pool[('op', k)] = OperatorTemplate(
+                name=o['name'], equations=list(LIB[o['lib']]['eqs']),
+                variables=_vardecl(o['lib'], {**LIB[o['lib']]['defaults'], **o.get('defaults', {})}))
+        ops[k] = pool[('op', k)]
     nts = {}
     for k, nt in spec['nts'].items():
-        if nt.get('var'):
-            nts[k] = NodeTemplate(name=nt['name'], operators={ops[ok]: dict(nt['var'].get(ok, {})) for ok in nt['ops']})
-        else:
-            nts[k] = NodeTemplate(name=nt['name'], operators=[ops[ok] for ok in nt['ops']])
+        if ('nt', k) not in pool:
+            if nt.get('var'):
+                pool[('nt', k)] = NodeTemplate(name=nt['name'],
+                                               operators={ops[ok]: dict(nt['var'].get(ok, {})) for ok in nt['ops']})
+            else:
+                pool[('nt', k)] = NodeTemplate(name=nt['name'], operators=[ops[ok] for ok in nt['ops']])
+        nts[k] = pool[('nt', k)]
 
     def edge(e):
         a = {k: v for k, v in e[2].items() if v is not None}
@@ -321,8 +336,8 @@ def build_yaml(spec, fname=None):
     return CircuitTemplate.from_yaml(f"{fname}/{spec['name']}")
 
 
-def build(spec):
-    return build_yaml(spec) if spec.get('build') == 'yaml' else build_python(spec)
+def build(spec, pool=None, fname=None):
+    return build_yaml(spec, fname) if spec.get('build') == 'yaml' else build_python(spec, pool)
 
 
 def state_outputs(spec):
